@@ -1,7 +1,8 @@
 ------------------------------- MODULE AudioMC -------------------------------
 (* Leg (A) of C13: exhaustive exploration of the two rendering loops of spec/Audio.tla for a small
    scope: a period buffer of Cap frames, D time units per frame, the request sizes -3..12, a
-   format list covering interleaved / planar / reversed / gapped layouts and refused pairs,
+   format list covering interleaved / planar / reversed / gapped layouts, byte-granular layouts (record
+   strides that are not a multiple of the container size, unaligned pointers) and refused pairs,
    songs given as event gaps.  Every call of every reachable state is judged by CallProps.
    In simulation mode (Emit) TLC prints behaviours (index lists into Ops) that the check replays
    on the real library. *)
@@ -18,6 +19,11 @@ Fmts == << [t |-> S16, c |-> 2, so |-> 4,  lb |-> 0,  rb |-> 2],     \* interlea
            [t |-> F32, c |-> 4, so |-> 4,  lb |-> 64, rb |-> 0],     \* planar, right plane first
            [t |-> U16, c |-> 4, so |-> 8,  lb |-> 0,  rb |-> 4],     \* wider container
            [t |-> F64, c |-> 8, so |-> 16, lb |-> 0,  rb |-> 8],
+           \* byte-granular layouts: the record stride is not a multiple of the container, the pointers are not aligned to it
+           [t |-> S16, c |-> 2, so |-> 3,  lb |-> 1,  rb |-> 20],    \* planar, stride = container + 1 (odd)
+           [t |-> S32, c |-> 4, so |-> 9,  lb |-> 1,  rb |-> 5],     \* interleaved 9-byte records
+           [t |-> U16, c |-> 4, so |-> 6,  lb |-> 1,  rb |-> 40],    \* planar, even stride between container and 2 containers
+           [t |-> S24, c |-> 4, so |-> 10, lb |-> 1,  rb |-> 6],     \* unused bytes between left and right and after the frame
            [t |-> S16, c |-> 1, so |-> 2,  lb |-> 0,  rb |-> 1],     \* refused: container too small
            [t |-> S32, c |-> 8, so |-> 16, lb |-> 0,  rb |-> 8],     \* refused: no 8-byte integers
            [t |-> F64, c |-> 4, so |-> 8,  lb |-> 0,  rb |-> 4],     \* refused
@@ -37,6 +43,17 @@ ASSUME \A fi \in 1..6 : \A nf \in {0, 1, 3} : \A a \in {0, 1, 4, 7, 8, 15, 16, 6
          \A st \in {0, 1, 4, 8, 12, 16, 24} : \A n \in {1, 2, 3} :
            (n > 1 => st >= ln) =>
              RunIn(<<a, ln, st, n>>, 0, Fmts[fi], nf) = RunInLiteral(<<a, ln, st, n>>, 0, Fmts[fi], nf)
+\* ... and for the byte-granular layouts: runs that start at, one byte before / after and in the middle of a slot,
+\* strides equal to, dividing, a multiple of and unrelated to the record stride
+UFmts == << Fmts[7], Fmts[8], Fmts[9], Fmts[10], [t |-> F64, c |-> 8, so |-> 17, lb |-> 1, rb |-> 9], [t |-> U16, c |-> 2, so |-> 5, lb |-> 3, rb |-> 0] >>
+ASSUME \A fi \in DOMAIN UFmts : \A nf \in {0, 1, 3} :
+         LET F == UFmts[fi] IN
+         \A a \in {0, F.lb - 1, F.lb, F.lb + 1, F.lb + F.c, F.lb + F.so - 1, F.lb + F.so, F.lb + F.so + 1,
+                    F.lb + 2 * F.so, F.lb + 3 * F.so, F.rb - 1, F.rb, F.rb + F.so, F.rb + 2 * F.so + 1} :
+           \A ln \in {1, F.c - 1, F.c, F.c + 1, 2 * F.c, F.so} :
+             \A st \in {0, 1, F.c, F.c + 1, F.so - (F.so % F.c), F.so, 2 * F.so, Abs(F.rb - F.lb)} : \A n \in {1, 2, 3} :
+               (a >= 0 /\ ln >= 1 /\ (n > 1 => st >= ln)) =>
+                 RunIn(<<a, ln, st, n>>, 0, F, nf) = RunInLiteral(<<a, ln, st, n>>, 0, F, nf)
 
 \* the table form of the integer conversions agrees with the documented one
 ASSUME \A t \in Types \ {F32, F64} :
